@@ -504,4 +504,141 @@ theorem midpoint_elemH (α a f o : Rat) (ha : 0 ≤ a) (g : List Rat) (p : Rat) 
       ← huberLoss_neg a (o - f), neg_sub]; ring
 
 end integrals
+
+/-! ## 4. the returned thetas as a rational grid -/
+section grid
+open SV.Model.Murphy
+/-- the finite values of a list of floats, in order -/
+def toRats : List Fl → List Rat
+  | [] => []
+  | Fl.fin q :: xs => q :: toRats xs
+  | _ :: xs => toRats xs
+
+theorem mem_toRats (q : Rat) (l : List Fl) : q ∈ toRats l ↔ Fl.fin q ∈ l := by
+  induction l with
+  | nil => simp [toRats]
+  | cons x xs ih => cases x <;> simp [toRats, ih]
+
+theorem toRats_pairwise (l : List Fl) (h : Sorted l) : (toRats l).Pairwise (· < ·) := by
+  induction l with
+  | nil => simp [toRats]
+  | cons x xs ih =>
+    unfold Sorted at h
+    rw [List.pairwise_cons] at h
+    cases x with
+    | fin q =>
+      simp only [toRats, List.pairwise_cons]
+      refine ⟨fun r hr => ?_, ih h.2⟩
+      have := h.1 (Fl.fin r) ((mem_toRats r xs).mp hr)
+      simpa using this
+    | pinf => exact ih h.2
+    | ninf => exact ih h.2
+    | nan => exact ih h.2
+
+/-- a strictly increasing grid that contains every kink (or has it at/below all its points) is kink-complete -/
+theorem kinkComplete_of_sorted (ks : List Rat) : ∀ g : List Rat, g.Pairwise (· < ·) →
+    (∀ k ∈ ks, k ∈ g ∨ ∀ x ∈ g, k ≤ x) → KinkComplete ks g := by
+  intro g
+  induction g with
+  | nil => intro _ _; trivial
+  | cons a t ih =>
+    intro hp hk
+    cases t with
+    | nil => trivial
+    | cons b rest =>
+      rw [List.pairwise_cons] at hp
+      have hab : a < b := hp.1 b (by simp)
+      refine ⟨⟨le_of_lt hab, ?_⟩, ih hp.2 ?_⟩
+      · intro k hkm ⟨h1, h2⟩
+        rcases hk k hkm with hin | hle
+        · rcases List.mem_cons.mp hin with rfl | hin
+          · exact lt_irrefl _ h1
+          · rcases List.mem_cons.mp hin with rfl | hin
+            · exact lt_irrefl _ h2
+            · have : b < k := (List.pairwise_cons.mp hp.2).1 k hin
+              linarith
+        · have := hle a (by simp); linarith
+      · intro k hkm
+        rcases hk k hkm with hin | hle
+        · rcases List.mem_cons.mp hin with rfl | hin
+          · right; intro x hx; exact le_of_lt (hp.1 x hx)
+          · left; exact hin
+        · right; intro x hx; exact hle x (List.mem_cons_of_mem _ hx)
+
+theorem head_le_of_sorted (p : Rat) (g : List Rat) (h : (p :: g).Pairwise (· < ·)) (x : Rat) (hx : x ∈ p :: g) : p ≤ x := by
+  rcases List.mem_cons.mp hx with rfl | hx
+  · exact le_refl _
+  · exact le_of_lt ((List.pairwise_cons.mp h).1 x hx)
+
+theorem le_lastOr_of_sorted : ∀ (g : List Rat) (p : Rat), (p :: g).Pairwise (· < ·) → ∀ x ∈ p :: g, x ≤ lastOr p g := by
+  intro g
+  induction g with
+  | nil => intro p _ x hx; simp at hx; subst hx; exact le_refl _
+  | cons q rest ih =>
+    intro p h x hx
+    rw [List.pairwise_cons] at h
+    simp only [lastOr]
+    rcases List.mem_cons.mp hx with rfl | hx
+    · exact le_trans (le_of_lt (h.1 q (by simp))) (ih q h.2 q (by simp))
+    · exact ih q h.2 x hx
+
+
+end grid
+
+/-! ## 5. NaN-skipping mean over cases = mean over the valid cases -/
+section means
+open SV.Fl
+/-- a case is either missing (NaN forecast or observation) or finite -/
+def CaseOK (c : Fl × Fl) : Prop := (c.1 = nan ∨ c.2 = nan) ∨ ∃ f o : Rat, c = (fin f, fin o)
+
+theorem fsum_fin' (xs : List Rat) : fsum (xs.map fin) = fin xs.sum := by
+  unfold fsum
+  suffices H : ∀ acc : Rat, (xs.map fin).foldl Fl.add (fin acc) = fin (acc + xs.sum) by simpa using H 0
+  induction xs with
+  | nil => intro acc; simp
+  | cons x xs ih => intro acc; simp only [List.map_cons, List.foldl_cons, add_fin, List.sum_cons]; rw [ih]; congr 1; ring
+
+theorem nanmean_fin (xs : List Rat) : nanmean (xs.map fin) = meanOf xs := by
+  unfold nanmean meanOf valid
+  have hv : (xs.map fin).filter Fl.notNan = xs.map fin := by
+    apply List.filter_eq_self.mpr; intro z hz
+    obtain ⟨q, _, rfl⟩ := List.mem_map.mp hz; rfl
+  simp only [hv]
+  cases xs with
+  | nil => simp
+  | cons x t =>
+    simp only [List.map_cons, List.isEmpty_cons, Bool.false_eq_true, if_false, List.length_cons, List.length_map]
+    rw [← List.map_cons, fsum_fin']
+    have hne : ((t.length + 1 : Nat) : Rat) ≠ 0 := by positivity
+    simp only [Fl.ofNat]
+    rw [div_fin _ _ hne]
+
+/-- generic: if `g` is NaN on missing cases and `fin (h f o)` on finite ones, the NaN-skipping mean of `g` over the cases
+    is the plain mean of `h` over the valid cases (NaN when there is none) -/
+theorem nanmean_cases (g : Fl × Fl → Fl) (h : Rat → Rat → Rat)
+    (hnan : ∀ c : Fl × Fl, (c.1 = nan ∨ c.2 = nan) → g c = nan) (hfin : ∀ f o : Rat, g (fin f, fin o) = fin (h f o))
+    (cases : List (Fl × Fl)) (hok : ∀ c ∈ cases, CaseOK c) :
+    nanmean (cases.map g) = meanOf ((validCases cases).map fun c => h c.1 c.2) := by
+  rw [← nanmean_fin]
+  unfold nanmean
+  have hv : valid (cases.map g) = valid (((validCases cases).map fun c => h c.1 c.2).map fin) := by
+    unfold valid
+    induction cases with
+    | nil => simp [validCases]
+    | cons c cs ih =>
+      have ih' := ih (fun c' hc' => hok c' (List.mem_cons_of_mem _ hc'))
+      rcases hok c (by simp) with hn | ⟨f, o, rfl⟩
+      · have : validCases (c :: cs) = validCases cs := by
+          obtain ⟨c1, c2⟩ := c
+          rcases hn with hn | hn
+          · simp only at hn; subst hn; simp [validCases]
+          · simp only at hn; subst hn; cases c1 <;> simp [validCases]
+        rw [this, List.map_cons, List.filter_cons, hnan c hn]
+        simpa using ih'
+      · simp only [validCases, List.map_cons, List.filter_cons, hfin, notNan_fin, if_true]
+        rw [ih']
+  rw [hv]
+
+
+end means
 end SV.Lemmas.Murphy
